@@ -6,6 +6,7 @@ import (
 	"encoding/json"
 	"fmt"
 	"math/rand"
+	"runtime"
 	"sort"
 	"strings"
 	"sync"
@@ -119,6 +120,16 @@ func PlayMode(beh M, rng *rand.Rand, proj *Projection, mode int) ([]M, error) {
 		case "send":
 			m := AsM(st["m"])
 			b := cz.Bytes(m)
+			hostile := false
+			switch S(m, "t") {
+			case "Bad", "Tiny", "Big", "U", "Huge":
+				hostile = proj != nil && proj.Alloc
+			}
+			var before runtime.MemStats
+			if hostile {
+				runtime.ReadMemStats(&before)
+			}
+			defer func() {}()
 			if tc != nil {
 				x.Log.Append(mem.Ev{"k": "send", "conn": conn.ID, "m": m})
 				conn.BeginClientWrite()
@@ -129,6 +140,11 @@ func PlayMode(beh M, rng *rand.Rand, proj *Projection, mode int) ([]M, error) {
 			}
 			if !B(st, "nowait") {
 				wait()
+			}
+			if hostile {
+				var after runtime.MemStats
+				runtime.ReadMemStats(&after)
+				x.Log.Append(mem.Ev{"k": "x-alloc", "conn": conn.ID, "bytes": int(after.TotalAlloc - before.TotalAlloc), "sent": len(b), "limit": x.EffLimit()})
 			}
 		case "eof":
 			conn.CloseClient()
@@ -182,6 +198,28 @@ func PlayMode(beh M, rng *rand.Rand, proj *Projection, mode int) ([]M, error) {
 			x.Log.Append(mem.Ev{"k": "wedged", "conn": conn.ID})
 		}
 	}
+	// after a hostile connection the server still accepts and serves a new one
+	var probe *mem.Conn
+	if B(beh, "probe") {
+		probe = x.Dial()
+		pz := &Concretiser{X: x, Rng: rng}
+		for _, m := range []M{{"t": "Startup", "term": true, "kvs": []any{M{"k": "user", "v": "probe"}}},
+			{"t": "Q", "q": M{"id": 777, "parse": "ok", "stmts": []any{M{"id": 777, "cols": []any{}, "oids": []any{}, "prog": []any{M{"op": "complete", "tag": "PROBE"}, M{"op": "ret", "r": "nil"}}}}}}} {
+			if S(cfg, "auth") == "clear" && S(m, "t") == "Q" {
+				pm := M{"t": "p", "pw": "good"}
+				probe.Send(pz.Bytes(pm), mem.Ev{"k": "send", "m": pm})
+				probe.WaitQuiet(WaitTimeout) //nolint
+			}
+			probe.Send(pz.Bytes(m), mem.Ev{"k": "send", "m": m})
+			if _, err := probe.WaitQuiet(WaitTimeout); err != nil {
+				x.Log.Append(mem.Ev{"k": "wedged", "conn": probe.ID})
+			}
+		}
+		probe.CloseClient()
+		if probe.WaitClosed(WaitTimeout) != nil {
+			x.Log.Append(mem.Ev{"k": "wedged", "conn": probe.ID})
+		}
+	}
 	if tc != nil { // let the TLS client drain what the server wrote
 		select {
 		case <-readerDone:
@@ -201,6 +239,18 @@ func PlayMode(beh M, rng *rand.Rand, proj *Projection, mode int) ([]M, error) {
 	plainMu.Unlock()
 	p.Finish()
 	out := append([]M{{"k": "cfg", "c": Clean(cfg)}}, p.Out...)
+	if probe != nil {
+		p2 := &Projector{Conn: probe.ID, Proj: proj, SkipPre: proj != nil && proj.SkipPreamble}
+		for _, e := range x.Log.Events() {
+			if e["k"] == "x-global" || e["k"] == "x-intact" {
+				continue
+			}
+			p2.Feed(e)
+		}
+		p2.Finish()
+		out = append(out, M{"k": "cfg", "c": Clean(cfg)})
+		out = append(out, p2.Out...)
+	}
 	return out, nil
 }
 
